@@ -164,14 +164,17 @@ def c15(tier, seed):
                 mm("C15", tier, "mm_deprecated_write_q", [("c15_2x3", ["clone", "read", "drop", "get_mut"], 2, 3, 2, False)]),
                 stage(CT.ctor_stage, "C15", tier, "release_q", ["release"], True, only_cats=["frees", "drops", "baddrop", "leak", "crash", "panicked"]),
                 # every payload shape through the uninit constructors: the block asked for is the block given back
-                lay("C15", tier, "layout_matrix_q")] + swaps("C15", tier, seed, hows=("uninit",))
+                lay("C15", tier, "layout_matrix_q"),
+                # a block built through the uninit constructors with a recorded length of its own, then made thin
+                thin("C15", tier, "thin_reclen_q", ["NewFat", "NewThin", "Clone", "Drop", "IntoThin", "FromThin", "ProtFromThin", "ProtIntoThin"], 3, 2, 1, 2)] + swaps("C15", tier, seed, hows=("uninit",))
     return [uninit("C15", tier, "uninit_t", 3, 2, 3), uninit("C15", tier, "uninit_t4", 4, 2, 2),
             uninit("C15", tier, "uninit_walks_t", 5, 4, 5, simulate=(10000, 60, seed)),
             uninit("C15", tier, "uninit_long_t", 3, 2, 2, scale=9), uninit("C15", tier, "uninit_long17_t", 2, 2, 3, scale=17),
             uninit("C15", tier, "uninit_long64_t", 2, 1, 2, scale=64),
             mm("C15", tier, "mm_deprecated_write_t", [("c15_2x4", ["clone", "read", "drop", "get_mut"], 2, 4, 2, False), ("c15_3x2", ["clone", "read", "drop", "get_mut"], 3, 2, 1, False)]),
             stage(CT.ctor_stage, "C15", tier, "release_t", ["release"], True, only_cats=["frees", "drops", "baddrop", "leak", "crash", "panicked"]),
-            lay("C15", tier, "layout_matrix_t")] + swaps("C15", tier, seed, hows=("uninit",))
+            lay("C15", tier, "layout_matrix_t"),
+            thin("C15", tier, "thin_reclen_t", ["NewFat", "NewThin", "Clone", "Drop", "IntoThin", "FromThin", "ProtFromThin", "ProtIntoThin"], 4, 2, 1, 3)] + swaps("C15", tier, seed, hows=("uninit",))
 
 
 def c06(tier, seed):
@@ -362,14 +365,18 @@ def c09(tier, seed):
                 tr("C09", tier, "threads_q", seed), inj("C09", tier),
             # unwrapping every payload shape (zero-sized, over-aligned, large) returns the block with its layout
             lay("C09", tier, "layout_matrix_" + tier[0]),
-            stage(CT.ctor_stage, "C09", tier, "zst_" + tier[0], ["zst"], True, only_cats=["drops", "leak", "layout", "panicked", "crash"])] + swaps("C09", tier, seed, hows=("init",))
+            stage(CT.ctor_stage, "C09", tier, "zst_" + tier[0], ["zst"], True, only_cats=["drops", "leak", "layout", "panicked", "crash"]),
+            # co-owners of other kinds: a ThinArc whose with_arc_mut callback replaced the Arc leaves exact counts for a later unwrap
+            thin("C09", tier, "thin_coowners_" + tier[0], THIN_OPS, 3 if tier == "quick" else 4, 2, 1, 1)] + swaps("C09", tier, seed, hows=("init",))
     return [sized("C09", tier, "sized_unwrap_t", ops, 4, 2, 1),
             mm("C09", tier, "mm_unwrap_t", [("c09_2x4", mops, 2, 4, 2, False), ("c09_3x2", mops, 3, 2, 2, False),
                                             ("c09_3x3", ["try_unwrap", "unwrap_or_clone", "drop"], 3, 3, 1, False)]),
             tr("C09", tier, "threads_t", seed), inj("C09", tier),
             # unwrapping every payload shape (zero-sized, over-aligned, large) returns the block with its layout
             lay("C09", tier, "layout_matrix_" + tier[0]),
-            stage(CT.ctor_stage, "C09", tier, "zst_" + tier[0], ["zst"], True, only_cats=["drops", "leak", "layout", "panicked", "crash"])] + swaps("C09", tier, seed, hows=("init",))
+            stage(CT.ctor_stage, "C09", tier, "zst_" + tier[0], ["zst"], True, only_cats=["drops", "leak", "layout", "panicked", "crash"]),
+            # co-owners of other kinds: a ThinArc whose with_arc_mut callback replaced the Arc leaves exact counts for a later unwrap
+            thin("C09", tier, "thin_coowners_" + tier[0], THIN_OPS, 3 if tier == "quick" else 4, 2, 1, 1)] + swaps("C09", tier, seed, hows=("init",))
 
 
 def c12(tier, seed):
